@@ -14,6 +14,8 @@ import (
 )
 
 // StrFnCase: one builtin (or law) applied to string / integer arguments.
+type c17Role string
+
 type StrFnCase struct {
 	Fn string   `json:"fn"`
 	S  Bytes    `json:"s"`
@@ -383,6 +385,17 @@ func judgeStrFn(c StrFnCase) *eng.Fail {
 		}
 		data["l"] = lst
 		data["ls"] = append([]string(nil), c.L...)
+		roles := make([]c17Role, len(c.L)) // a list whose elements are of a named string type
+		mixed := make([]interface{}, len(c.L))
+		for k, e := range c.L {
+			roles[k] = c17Role(e)
+			if k%2 == 0 {
+				mixed[k] = c17Role(e)
+			} else {
+				mixed[k] = e
+			}
+		}
+		data["lr"], data["lm"] = roles, mixed
 		v, f := ev("[join(l,t), includes(l,u), join(ls,t), includes(ls,u)]")
 		if f != nil {
 			return f
@@ -413,6 +426,13 @@ func judgeStrFn(c StrFnCase) *eng.Fail {
 		}
 		if a2 := v2.([]interface{}); a2[1] != interface{}(wj) || a2[3] != interface{}(wj) || a2[5] != interface{}(wj) || a2[0] != interface{}(inc) {
 			return fail("join(list,t) after includes(list,u)", a2, wj)
+		}
+		v3, f3 := ev("[join(lr,t), includes(lr,u), join(lm,t), includes(lm,u)]")
+		if f3 != nil {
+			return f3
+		}
+		if a3 := v3.([]interface{}); a3[0] != interface{}(wj) || a3[2] != interface{}(wj) || a3[1] != interface{}(inc) || a3[3] != interface{}(inc) {
+			return fail("join / includes over a list whose elements are of a named string type", a3, fmt.Sprint(wj, " ", inc))
 		}
 		if got := data["ls"].([]string); strings.Join(got, "\x00") != strings.Join(c.L, "\x00") || len(got) != len(c.L) {
 			return fail("the caller's []string after includes and join", got, c.L)
